@@ -1,8 +1,10 @@
 import networkx as nx
 import json
+import re
 from utils import hash_sorted_object
+from validation import patterns
 from validation.schema_validator import SchemaValidator
-from validation.utils import parse_ref_id
+from validation.utils import parse_ref_id, truncate_schema_id
 from visualization.dependency_chart_layout import DependencyChartLayout
 from services.miro import MiroBoard
 
@@ -80,10 +82,33 @@ class DependencyGraph:
                 continue
 
             self._explore_edges_recursive(
-                action_id, checkpoint_alias=parse_ref_id(action["depends_on"])
+                action_id,
+                checkpoint_alias=self._checkpoint_alias_from_ref(action["depends_on"]),
             )
 
         self._set_node_coordinates()
+
+    def _resolve_ref(self, ref, collection, alias_field):
+        # references are written either by id ("action:0") or by alias ("action:{name}")
+        if re.match(patterns.global_alias_ref, truncate_schema_id(ref)):
+            ref_field = alias_field
+        else:
+            ref_field = "id"
+
+        ref_id = parse_ref_id(ref)
+        for obj in self.schema[collection]:
+            if ref_field in obj and str(obj[ref_field]) == ref_id:
+                return obj
+
+        raise Exception(f"Cannot resolve ref: {ref}")
+
+    def _action_id_from_ref(self, action_ref):
+        # actions are represented by their id in the graph
+        return str(self._resolve_ref(action_ref, "actions", "name")["id"])
+
+    def _checkpoint_alias_from_ref(self, checkpoint_ref):
+        # checkpoints (gates) are represented by their alias in the graph
+        return self._resolve_ref(checkpoint_ref, "checkpoints", "alias")["alias"]
 
     def _explore_edges_recursive(self, dependent_id, checkpoint_alias):
         def is_duplicate_dependency(dependent_id, dependency_obj):
@@ -131,12 +156,13 @@ class DependencyGraph:
                         if "ref" in dep["compare"][operand]:
                             self._add_edge(
                                 checkpoint_alias,
-                                parse_ref_id(dep["compare"][operand]["ref"]),
+                                self._action_id_from_ref(dep["compare"][operand]["ref"]),
                                 action_dependency=dep["compare"],
                             )
                 elif "checkpoint" in dep:
                     self._explore_edges_recursive(
-                        checkpoint_alias, parse_ref_id(dep["checkpoint"])
+                        checkpoint_alias,
+                        self._checkpoint_alias_from_ref(dep["checkpoint"]),
                     )
 
         elif num_dependencies == 1:
@@ -155,7 +181,9 @@ class DependencyGraph:
                     continue
 
                 if "ref" in dependency["compare"][operand]:
-                    to_action_id = parse_ref_id(dependency["compare"][operand]["ref"])
+                    to_action_id = self._action_id_from_ref(
+                        dependency["compare"][operand]["ref"]
+                    )
 
                 self._add_edge(
                     dependent_id, to_action_id, action_dependency=dependency["compare"]
@@ -164,7 +192,8 @@ class DependencyGraph:
                 action = self.actions[to_action_id]
                 if "depends_on" in action:
                     self._explore_edges_recursive(
-                        to_action_id, parse_ref_id(action["depends_on"])
+                        to_action_id,
+                        self._checkpoint_alias_from_ref(action["depends_on"]),
                     )
 
     def generate_miro_board(self, board_id=None, board_name=None):
